@@ -8,10 +8,10 @@ import glob
 for g in sorted(glob.glob(os.path.join(C.VERIF, 'gen', 'gen_c*.py'))):
     r = C.run_gen(os.path.basename(g))
     print(os.path.basename(g), 'ok' if r.get('ok') else r.get('error'))
-ok, out = C.lake_build([])
+mods = ['Alpaqa.Props.' + os.path.basename(f)[:-5] for f in sorted(glob.glob(os.path.join(C.LEAN, 'Alpaqa', 'Props', '*.lean')))]
+ok, out = C.lake_build(mods)
 print(out[-3000:])
-import re
-exes = re.findall(r'^name = "(drv_[a-z0-9_]+)"', open(os.path.join(C.LEAN, 'lakefile.toml')).read(), re.M)
+exes = ['drv_' + os.path.basename(f)[:-5].lower() for f in sorted(glob.glob(os.path.join(C.LEAN, 'Driver', 'C*.lean')))]
 if exes:
     ok2, out2 = C.lake_build(exes)
     print(out2[-2000:])
